@@ -54,6 +54,13 @@ def gen_clusters(rng: random.Random, F: int, degenerate: float = 0.15, big: floa
             proto = [1 if rng.random() < 0.8 else 0 for _ in range(F)]
             out.append([[b ^ (1 if rng.random() < 0.1 else 0) for b in proto] for _ in range(n)])
         return out
+    if rng.random() < 0.04 and F >= 8:
+        # every cluster has iSIM 0 (pairwise disjoint rows): the Dunn index's max(D) == 0 branch
+        out = []
+        for c in range(rng.choice([2, 3])):
+            cols = rng.sample(range(F), rng.choice([2, 3]))
+            out.append([[1 if j == col else 0 for j in range(F)] for col in cols])
+        return out
     k = rng.choice([1, 2, 2, 3, 4, 6])
     protos = [[1 if rng.random() < 0.5 else 0 for _ in range(F)] for _ in range(k)]
     out = []
@@ -92,6 +99,14 @@ def suite_indices(tier: str, seed: int, mult: int) -> SuiteResult:
                     return (float(jt_isim_chi(cs, **kw)), float(jt_dbi(cs, **kw)), float(jt_isim_dunn(cs, **kw)))
             vp = indices(pk, True)
             vu = indices(un, False)
+            if k % 5 == 0 and all(len(c) for c in cl):
+                # centroids passed explicitly (unpacked, with unpacked input): the same values as the default
+                cents = [((2 * c.astype(np.int64).sum(axis=0) >= len(c)) if len(c) > 1 else (c[0] != 0)).astype(np.uint8) for c in un]
+                with np.errstate(all="ignore"):
+                    ve = (float(jt_isim_chi(un, centrals=cents, input_is_packed=False)), float(jt_dbi(un, centrals=cents, input_is_packed=False)))
+                cnt["explicit_centrals"] = cnt.get("explicit_centrals", 0) + 1
+                if not same(ve[0], vu[0], 1e-12) or not same(ve[1], vu[1], 1e-12):
+                    _fail(res, "C19:indices-with-explicit-centroids-differ-from-the-default", f"{ve} vs {vu[:2]}", case)
             for name, a, b in zip(("chi", "dbi", "dunn"), vp, vu):
                 if not same(a, b, 1e-12):
                     _fail(res, f"C19:{name}-differs-between-packed-and-unpacked-input", f"{a} vs {b}", case)
